@@ -41,13 +41,13 @@ def gen_level(rng, cls, n_meas):
             for i in sorted(rng.sample(range(n), min(n, rng.choice([1, 1, 2, 3])))):
                 vol, pan = rng.randrange(16), rng.randrange(16)
                 if open_:
-                    slots[i] = (rng.randint(1, 500), vol, pan, 3)
+                    slots[i] = (rng.choice([rng.randint(1, 500), 40000, 65535]), vol, pan, 3)
                     open_ = False
                 elif rng.random() < 0.3:
-                    slots[i] = (rng.randint(1, 500), vol, pan, 2)
+                    slots[i] = (rng.choice([rng.randint(1, 500), 40000, 65535]), vol, pan, 2)
                     open_ = True
                 else:
-                    slots[i] = (rng.randint(1, 500), vol, pan, 0)
+                    slots[i] = (rng.choice([rng.randint(1, 500), 32768, 65535]), vol, pan, 0)
             pk.append((m, col + 2, slots))
         if open_:
             pk.append((n_meas, col + 2, [(7, 0, 0, 3)]))
